@@ -37,8 +37,10 @@ def run(rep, tier, seed):
         elif k == "rpcmd":
             sig = "C08 commands '%s' %s" % (g.get("s"), why[:160])
         else:
-            sig = "C08 region %s w=%s o=%s ends=%s %s" % ("+".join(s["k"] for s in g.get("secs", [])),
-                                                        g.get("w"), g.get("o"), g.get("ends"), why[:120])
+            shape = "+".join(s["k"] for s in g.get("secs", []))
+            if g.get("poly"):
+                shape = "polyline" + "".join("(%s,%s)" % tuple(s["p"]) for s in g["secs"])
+            sig = "C08 region %s w=%s o=%s ends=%s %s" % (shape, g.get("w"), g.get("o"), g.get("ends"), why[:120])
         rep.violation(sig, rp, why[:300])
     return rep.finish(rule="(a) 14 section kinds x 4 width x 3 offset interpolations x 1-2 elements "
                            "and call pairs: exact end points, one interpolation entry per section, "
